@@ -64,7 +64,7 @@ def setup_symbolic():
     for name, mod in list(sys.modules.items()):
         if name.startswith("kafe2") and mod is not None and hasattr(mod, "print_dict_as_table") and name != "kafe2.tools":
             mod.print_dict_as_table = tools.print_dict_as_table
-    numfmt.enable(True)
+    numfmt.enable(True, lo=-5, hi=7)
 
 
 def setup_concrete():
@@ -246,6 +246,7 @@ def sc_plain(cx, n, kx, mode):
 def sc_compact(cx, kv, ke, which):
     """kafe2.tools.get_compact_representation (the table written into saved files); one numeral symbolic at a time"""
     numfmt.STATE["light"] = False
+    numfmt.STATE["lo"] = min(-5, kv - 2, ke - 2)  # decade search range of the digit model (restored per scenario by setup)
     import numpy as np
 
     from kafe2.tools import get_compact_representation
@@ -294,6 +295,7 @@ def sc_compact(cx, kv, ke, which):
         _absdiff_le(cx, tag + ":%s-within-half-unit-of-own-last-digit" % nm, t.d, Q, _q(Fraction(t.u) / 2) if cx.symbolic else Fraction(t.u) / 2, info=lines[0])
     tb = _parse(cx, lines[1][3:])
     cx.concrete(tag + ":fixed-parameter-marked", "fixed" in lines[1], info=lines[1])
+    cx.concrete(tag + ":free-parameter-not-marked-fixed", "fixed" not in lines[0], info=lines[0])
     if tb and (which == "cor" or not cx.symbolic):
         tc = tb[-1]
         C = c if cx.symbolic else Fraction(float(c))
@@ -314,6 +316,71 @@ def _range(cx, v, lo=-2, hi=3, positive=False):
     a = v if positive else cx.ite(v < 0, -v, v)
     cx.assume(a >= _q(_p10(lo)))
     cx.assume(a < _q(_p10(hi)))
+
+
+def sc_report_pure(cx, ftype, fitted):
+    """concrete-only (the digit model of every table cell of a full report does not finish symbolically: probed, 400 s
+    without a verdict): report() is a read -- every quantity the fit holds is bit-for-bit the same after a report with
+    data and model tables as before it; formatting must not write rounded numbers back into the fit.  Inputs carry
+    more digits than any table shows."""
+    import numpy as np
+
+    from kafe2 import IndexedFit, XYFit
+
+    x = [1.123456789, 2.123456789, 3.123456789, 4.123456789]
+    y = [1.123456789, 2.323456789, 2.923456789, 4.223456789]
+    if ftype == "xy":
+        fit = XYFit([x, y])
+        fit.add_error("y", [0.312345678, 0.298765432, 0.301234567, 0.322222222])
+        fit.add_error("x", 0.112345678)
+        fit.add_error("y", 0.0123456789, relative=True, reference="model")
+    else:
+        def lin(a=1.2345678, b=0.3456789):
+            return a * np.arange(4) + b
+
+        fit = IndexedFit(y, lin)
+        fit.add_error([0.312345678, 0.298765432, 0.301234567, 0.322222222])
+        fit.add_error(0.0123456789, relative=True, reference="model")
+    if fitted:
+        fit.do_fit()
+    names = ["x_data", "y_data", "data", "x_data_error", "y_data_error", "data_error", "x_model", "y_model", "model", "y_model_error", "model_error", "x_total_error", "y_total_error",
+             "total_error", "parameter_values", "parameter_errors", "parameter_cov_mat", "parameter_cor_mat", "total_cov_mat", "data_cov_mat", "y_data_cov_mat", "x_data_cov_mat"]
+
+    def snap():
+        out = {}
+        for nm in names:
+            v = getattr(fit, nm, None)
+            if v is not None:
+                out[nm] = np.array(v, dtype=float, copy=True)
+        return out
+
+    before = snap()
+    cost0 = fit.cost_function_value
+    fit.report(output_stream=io.StringIO(), show_data=True, show_model=True, asymmetric_parameter_errors=False)
+    after = snap()
+    tag = "report-pure/%s/%s" % (ftype, "fitted" if fitted else "unfitted")
+    for nm, old in before.items():
+        cx.concrete(tag + ":%s-unchanged-by-report" % nm, nm in after and np.array_equal(after[nm], old), info="%r -> %r" % (old, after.get(nm)))
+    cx.concrete(tag + ":cost-unchanged-by-report", fit.cost_function_value == cost0)
+    if fitted:
+        # the loaded-results path (a fit read back from a file reports from a stored dictionary)
+        import os
+        import tempfile
+
+        from kafe2.fit._base.fit import FitBase
+
+        d = tempfile.mkdtemp(prefix="vx-c17-")
+        try:
+            fn = os.path.join(d, "fit.yml")
+            fit.to_file(fn)
+            g = FitBase.from_file(fn)
+            c0 = np.array(g.parameter_cor_mat, copy=True)
+            g.report(output_stream=io.StringIO())
+            cx.concrete(tag + ":loaded-fit-parameter_cor_mat-unchanged-by-report", np.array_equal(c0, g.parameter_cor_mat), info="%r -> %r" % (c0, g.parameter_cor_mat))
+        finally:
+            import shutil
+
+            shutil.rmtree(d, ignore_errors=True)
 
 
 def sc_report(cx, minimizer, fixed, asym):
@@ -554,6 +621,10 @@ def scenarios(tier, seed):
                 if q and ((which == "asym" and kv != 0) or (kv, ke) == (-2, 1) or ((kv, ke) == (2, -3) and which != "value")):
                     continue  # (2, -3)/value: 7 significant digits after the first rounding -- the double-rounding case
                 S.append(Scenario("compact/v1e%d/e1e%d/%s" % (kv, ke, which), sc_compact, family="compact/" + which, params=dict(kv=kv, ke=ke, which=which)))
+    # very small uncertainties of a free parameter (SI units at nano scale): still a free parameter with an uncertainty
+    for kv, ke in ((-7, -9),) if q else ((-7, -9), (-10, -12), (0, -9)):
+        for which in ("error", "value"):
+            S.append(Scenario("compact/v1e%d/e1e%d/%s" % (kv, ke, which), sc_compact, family="compact/" + which, params=dict(kv=kv, ke=ke, which=which)))
     if q:
         # more than six significant digits after the first rounding: the double-rounding case of the table renderer
         S.append(Scenario("compact/v1e4/e1e-3/value", sc_compact, family="compact/value", params=dict(kv=4, ke=-3, which="value")))
@@ -570,6 +641,9 @@ def scenarios(tier, seed):
                 S.append(Scenario("report/%s/%s%s" % (minimizer, "fixed" if fixed else "free", "/asym" if asym else ""), sc_report, family="report/" + minimizer, params=dict(minimizer=minimizer, fixed=fixed, asym=asym)))
         S.append(Scenario("result-dict/%s" % minimizer, sc_result_dict, family="result-dict", params=dict(minimizer=minimizer)))
         S.append(Scenario("preface/%s" % minimizer, sc_preface, family="preface", params=dict(minimizer=minimizer)))
+    for ftype in ("xy", "indexed"):
+        for fitted in (False, True):
+            S.append(Scenario("report-pure/%s/%s" % (ftype, "fitted" if fitted else "unfitted"), sc_report_pure, family="report-pure", params=dict(ftype=ftype, fitted=fitted), concrete_only=True))
     for n in (1, 2, 3, 4):
         S.append(Scenario("ties/n%d" % n, sc_ties, family="ties", params=dict(n=n), concrete_only=True))
     S.append(Scenario("twin/displayed-is-not-exact", sc_twin, twin=True))
